@@ -170,7 +170,10 @@ fn transport(t: DeviceType, offered: u64) -> KTransport {
 fn c08_new_rng() {
     let offered: u64 = kani::any();
     let tr = transport(DeviceType::EntropySource, offered);
-    if let Ok(d) = crate::device::rng::VirtIORng::<KHal, KTransport>::new(tr) {
+    let r = crate::device::rng::VirtIORng::<KHal, KTransport>::new(tr);
+    // non-vacuity: a well-behaved device (free queues, allocations succeed, 64-byte config space) is accepted
+    assert!(r.is_ok(), "C08: construction refused on a well-behaved device");
+    if let Ok(d) = r {
         check_log(offered, RING, 1);
         core::mem::forget(d);
     }
@@ -182,7 +185,10 @@ fn c08_new_rng() {
 fn c08_new_rtc() {
     let offered: u64 = kani::any();
     let tr = transport(DeviceType::Timer, offered);
-    if let Ok(d) = crate::device::rtc::VirtIORtc::<KHal, KTransport>::new(tr) {
+    let r = crate::device::rtc::VirtIORtc::<KHal, KTransport>::new(tr);
+    // non-vacuity: a well-behaved device (free queues, allocations succeed, 64-byte config space) is accepted
+    assert!(r.is_ok(), "C08: construction refused on a well-behaved device");
+    if let Ok(d) = r {
         check_log(offered, RING, 1);
         core::mem::forget(d);
     }
@@ -195,7 +201,10 @@ fn c08_new_rtc() {
 fn c08_new_blk() {
     let offered: u64 = kani::any();
     let tr = transport(DeviceType::Block, offered);
-    if let Ok(d) = crate::device::blk::VirtIOBlk::<KHal, KTransport>::new(tr) {
+    let r = crate::device::blk::VirtIOBlk::<KHal, KTransport>::new(tr);
+    // non-vacuity: a well-behaved device (free queues, allocations succeed, 64-byte config space) is accepted
+    assert!(r.is_ok(), "C08: construction refused on a well-behaved device");
+    if let Ok(d) = r {
         check_log(offered, RING | (1 << 5) | (1 << 9), 1);
         core::mem::forget(d);
     }
@@ -207,7 +216,10 @@ fn c08_new_blk() {
 fn c08_new_gpu() {
     let offered: u64 = kani::any();
     let tr = transport(DeviceType::GPU, offered);
-    if let Ok(d) = crate::device::gpu::VirtIOGpu::<KHal, KTransport>::new(tr) {
+    let r = crate::device::gpu::VirtIOGpu::<KHal, KTransport>::new(tr);
+    // non-vacuity: a well-behaved device (free queues, allocations succeed, 64-byte config space) is accepted
+    assert!(r.is_ok(), "C08: construction refused on a well-behaved device");
+    if let Ok(d) = r {
         check_log(offered, RING | (1 << 1), 2);
         core::mem::forget(d);
     }
@@ -220,7 +232,10 @@ fn c08_new_gpu() {
 fn c08_new_console() {
     let offered: u64 = kani::any();
     let tr = transport(DeviceType::Console, offered);
-    if let Ok(d) = crate::device::console::VirtIOConsole::<KHal, KTransport>::new(tr) {
+    let r = crate::device::console::VirtIOConsole::<KHal, KTransport>::new(tr);
+    // non-vacuity: a well-behaved device (free queues, allocations succeed, 64-byte config space) is accepted
+    assert!(r.is_ok(), "C08: construction refused on a well-behaved device");
+    if let Ok(d) = r {
         check_log(offered, RING | (1 << 0) | (1 << 2), 2);
         core::mem::forget(d);
     }
@@ -233,7 +248,10 @@ fn c08_new_console() {
 fn c08_new_net_raw() {
     let offered: u64 = kani::any();
     let tr = transport(DeviceType::Network, offered);
-    if let Ok(d) = crate::device::net::VirtIONetRaw::<KHal, KTransport, 4>::new(tr) {
+    let r = crate::device::net::VirtIONetRaw::<KHal, KTransport, 4>::new(tr);
+    // non-vacuity: a well-behaved device (free queues, allocations succeed, 64-byte config space) is accepted
+    assert!(r.is_ok(), "C08: construction refused on a well-behaved device");
+    if let Ok(d) = r {
         check_log(offered, RING | (1 << 5) | (1 << 16), 2);
         core::mem::forget(d);
     }
@@ -248,7 +266,10 @@ fn k08_new_9p() {
     tr.config[0] = 1;
     tr.config[1] = 0;
     tr.config[2] = b'a';
-    if let Ok(d) = crate::device::virtio_9p::VirtIO9p::<KHal, KTransport>::new(tr) {
+    let r = crate::device::virtio_9p::VirtIO9p::<KHal, KTransport>::new(tr);
+    // non-vacuity: a well-behaved device (free queues, allocations succeed, 64-byte config space) is accepted
+    assert!(r.is_ok(), "C08: construction refused on a well-behaved device");
+    if let Ok(d) = r {
         check_log(offered, RING, 1);
         core::mem::forget(d);
     }
@@ -262,7 +283,10 @@ fn k08_new_vsock() {
     let offered: u64 = kani::any();
     let mut tr = transport(DeviceType::Socket, offered);
     tr.legacy = false;
-    if let Ok(d) = crate::device::socket::VirtIOSocket::<KHal, KTransport, 64>::new(tr) {
+    let r = crate::device::socket::VirtIOSocket::<KHal, KTransport, 64>::new(tr);
+    // non-vacuity: a well-behaved device (free queues, allocations succeed, 64-byte config space) is accepted
+    assert!(r.is_ok(), "C08: construction refused on a well-behaved device");
+    if let Ok(d) = r {
         check_log(offered, RING, 3);
         core::mem::forget(d);
     }
@@ -300,7 +324,10 @@ fn k08_new_input() {
     let offered: u64 = V1;
     let mut tr = transport(DeviceType::Input, offered);
     tr.legacy = false;
-    if let Ok(d) = crate::device::input::VirtIOInput::<QuietHal, KTransport>::new(tr) {
+    let r = crate::device::input::VirtIOInput::<QuietHal, KTransport>::new(tr);
+    // non-vacuity: a well-behaved device (free queues, allocations succeed, 64-byte config space) is accepted
+    assert!(r.is_ok(), "C08: construction refused on a well-behaved device");
+    if let Ok(d) = r {
         check_log(offered, RING, 2);
         core::mem::forget(d);
     }
